@@ -375,6 +375,8 @@ func checkC05(p *Prog, l *Ledger) {
 	if !cs.account(l) {
 		return
 	}
+	// the parser hands every statement of a body or block to the tree, none dropped, reordered or spliced (shared with C03)
+	checkTreeLinks(p, l, "C05/S4-tree-links")
 	runMon(l, "C05/S1-automaton", "eval/IfStmt", cs.Clauses["*ast.IfStmt"], monIf(), "condition · truthiness · exactly one arm (else only if present)")
 	runMon(l, "C05/S1-automaton", "eval/While", cs.Clauses["*ast.While"], monWhile(), "(condition · body)*, Break/falsy leaves, Continue/None repeats, Return propagates")
 	runMon(l, "C05/S1-automaton", "eval/ForStmt", cs.Clauses["*ast.ForStmt"], monFor(), "initializer once · (condition · body · increment)*, Continue still increments, Break leaves only this loop")
@@ -527,7 +529,7 @@ func checkC06(p *Prog, l *Ledger) {
 	ii := cs.ii
 	// ---- S0 the faults are detected: an invalid operation can only be reported if the evaluator tests for it on every
 	// path to the operation (rules shared with C03 — undefined name, redeclaration — and C04 — callee kind, arity)
-	l.As(map[string]string{"C03/S2-scope-wiring": "C06/S0-fault-detected/names", "C04/S3-call-protocol": "C06/S0-fault-detected/call"}, func() {
+	l.As(map[string]string{"C03/S2-scope-wiring": "C06/S0-fault-detected/names", "C04/S3-": "C06/S0-fault-detected/"}, func() {
 		checkScopeWiring(cs, l)
 		checkCallProtocol(cs, l)
 	})
